@@ -1333,3 +1333,27 @@ Definition P_SPTREE := s "p:spTree".
 
 (* XLS workbook: _read_content handles the sheets one after the other with no state carried over *)
 Definition xls_workbook_tables (sheets : list (list (list lcell))) : list (list (list val)) := map xls_sheet_table sheets.
+
+(* ------------------------------------------------------------------ DOCX: anchor paragraph index of every table
+   _extract_tables_from_context returns (tables, table_anchor_paragraph_indices): the two lists are zipped
+   by the unit builder, so they must stay aligned.  current_paragraph_index counts the DIRECT w:p
+   children of the body seen so far (starting at -1); a table (and every table nested in it, and every
+   table found through a wrapper child) gets anchor = max(0, current index). *)
+Fixpoint docx_anchor_walk (idx : Z) (children : list xml) : list (list (list str) * Z) :=
+  match children with
+  | [] => []
+  | ch :: r =>
+      if tag_is W_P ch then docx_anchor_walk (idx + 1) r
+      else
+        let tops := if tag_is W_TBL ch then [ch]
+                    else if mem_str (xtag ch) DOCX_WRAPPERS then docx_through W_TBL ch else [] in
+        map (fun tb => (docx_table tb, Z.max 0 idx)) (flat_map (iter_tag W_TBL) tops) ++ docx_anchor_walk idx r
+  end.
+Definition docx_tables_anchored (body : xml) : list (list (list str) * Z) := docx_anchor_walk (-1) (xchildren body).
+(* number of paragraph blocks before each top-level table of an abstract document *)
+Fixpoint doc_anchor_spec (seen : Z) (d : doc) : list Z :=
+  match d with
+  | [] => []
+  | BPara _ :: r => doc_anchor_spec (seen + 1) r
+  | BTable g :: r => repeat_list (Z.max 0 (seen - 1)) (S (length (nested_of_grid g))) ++ doc_anchor_spec seen r
+  end.
